@@ -35,6 +35,7 @@ import (
 	"github.com/emmansun/gmsm/sm4"
 	"github.com/emmansun/gmsm/sm9"
 	"github.com/emmansun/gmsm/smx509"
+	vh "github.com/emmansun/gmsm/verifhook"
 	"github.com/emmansun/gmsm/zuc"
 
 	"verif/engine"
@@ -592,4 +593,58 @@ func s22() scenario {
 		a.add("decrypt", pt, err)
 		return a.sum()
 	})
+}
+
+// ---- S23: first use of one package-level singleton by two threads that do nothing else before it. Another Once that
+// one thread completes and the other then passes is a real happens-before edge and can hide an unsynchronised fast path
+// in front of a different Once (as in S6b, where the threads use several singletons); here each scenario touches one.
+
+func firstUse(name string, op func(seed int) string) scenario {
+	sc := independent(name, op)
+	sc.resetGlobals = true
+	return sc
+}
+
+func s23() []scenario {
+	k := func(seed int) []byte { return fixedScalar(byte(130 + seed)) }
+	return []scenario{
+		firstUse("S23a-first-use-bn256-g1-generator-table-independent-objects", func(seed int) string {
+			g, err := new(vh.G1).ScalarBaseMult(k(seed))
+			if err != nil {
+				return "err:" + err.Error()
+			}
+			return hex.EncodeToString(g.Marshal())
+		}),
+		firstUse("S23b-first-use-bn256-g2-generator-table-independent-objects", func(seed int) string {
+			g, err := new(vh.G2).ScalarBaseMult(k(seed))
+			if err != nil {
+				return "err:" + err.Error()
+			}
+			return hex.EncodeToString(g.Marshal())
+		}),
+		firstUse("S23c-first-use-sm2-curve-parameters-independent-objects", func(seed int) string {
+			p := sm2.P256().Params()
+			x, y := sm2.P256().ScalarBaseMult(k(seed))
+			return p.N.Text(16) + "/" + x.Text(16) + "/" + y.Text(16)
+		}),
+		firstUse("S23d-first-use-sm2ec-point-tables-independent-objects", func(seed int) string {
+			p, err := vh.NewSM2P256Point().ScalarBaseMult(k(seed))
+			if err != nil {
+				return "err:" + err.Error()
+			}
+			c := p.BytesCompressed()
+			q, err := vh.NewSM2P256Point().SetBytes(c) // square root: uses the lazily built curve constant in the pure-Go build
+			if err != nil {
+				return "err:" + err.Error()
+			}
+			return hex.EncodeToString(q.Bytes())
+		}),
+		firstUse("S23e-first-use-sm2-key-construction-independent-objects", func(seed int) string {
+			key, err := sm2.NewPrivateKey(k(seed))
+			if err != nil {
+				return "err:" + err.Error()
+			}
+			return key.X.Text(16)
+		}),
+	}
 }
